@@ -62,6 +62,8 @@ def gen_grid0(rng, cfg):
     T = rng.randint(*cfg.get('T', (3, 10)))
     if tz is not None and rng.random() < cfg.get('p_dst', 0.5) and freq in ('h', '30min', '2h'):
         start = rng.choice(DST_STARTS)
+    elif tz is not None and rng.random() < cfg.get('p_dst', 0.5) and freq == 'd':
+        start = rng.choice(['2021-03-26 00:00', '2021-10-29 00:00', '2021-03-27 00:00', '2021-10-30 00:00'])     # 23 h / 25 h days ahead
     else:
         start = rng.choice(STARTS)
     unit = rng.choice(cfg.get('units', ['h', 'h', 'd']))
@@ -200,6 +202,24 @@ def common(rng, g, cfg, a, allow_freq=True):
         a['wacc'] = rng.choice([0.05, 0.1, 0.5])
     if allow_freq:
         f = coarse_freq(rng, g, cfg)
+        if f is not None and cfg.get('coarse_windows') and rng.random() < 0.5:
+            # a coarse asset with its own window: starts up to one coarse step before the horizon or inside it, lasts a whole number of
+            # coarse steps (no incomplete last coarse interval) and may end inside or after the horizon
+            pts = grid_points(g)
+            T = len(pts) - 1
+            step = freq_td(g['freq'])
+            m = int(round(freq_td(f) / step))
+            k0 = rng.randint(-(m - 1), max(0, T - m))
+            q = rng.randint(1, max(1, (T - k0) // m + 1))
+            s0 = pts[0] + k0 * step
+            e0 = s0 + q * m * step
+            try:
+                check_safe(s0, g.get('tz')); check_safe(e0, g.get('tz'))
+                a['start'], a['end'], a['freq'] = fmt(s0), fmt(e0), f
+                a.pop('periodicity', None)
+                return a
+            except Unsafe:
+                pass
         if f is not None and 'start' not in a and 'end' not in a:
             a['freq'] = f
         else:
